@@ -34,15 +34,22 @@ PROPS["C18"] = {
                     "porcupine and the brute-force checker are not wrong in the same way",
                     "the library's sequential results are the reference for the concurrent ones (their correctness is C01-C17)"],
     "units": [{
-        # "race-noavx2": the race binary with GODEBUG=cpu.avx2=off (serial point code: its scratch state differs from the vector path).
-        # "race"/"race-purego": built with -race (the race detector is an oracle); "default": the same tests without
+        # "race"/"race-noavx2"/"race-purego": built with -race (the race detector is an oracle); "race-noavx2" is the race
+        # binary with GODEBUG=cpu.avx2=off (serial point code: its scratch state differs from the vector path); "race-purego"
+        # additionally swaps in the Go Keccak and the generic table lookups; "default"/"noavx2": the same tests without
         # instrumentation (~10x more repetitions per case at real-world timing; oracles: results, histories, invariants,
         # runtime fatal errors).
-        "pkg": "primitives/ed25519/extra/cache", "configs": {"quick": ["race", "race-noavx2", "default"], "thorough": ["race", "race-noavx2", "race-purego", "default", "noavx2"]},
+        "pkg": "primitives/ed25519/extra/cache", "configs": {"quick": ["race", "default"], "thorough": ["race", "default", "noavx2"]},
         "tests": {
             "TestC18ModelSelf": LIST(configs=["race"]),
             "TestC18History": T(400, 8000, shards={"quick": 8, "thorough": 16}, shrinktime="15s"),
             "TestC18Workload": T(400, 8000, shards={"quick": 8, "thorough": 16}, shrinktime="15s"),
+        },
+    }, {
+        # the backend-specific configurations only matter to the workload (the LRU code is backend independent)
+        "pkg": "primitives/ed25519/extra/cache", "configs": {"quick": ["race-noavx2", "race-purego"], "thorough": ["race-noavx2", "race-purego"]},
+        "tests": {
+            "TestC18Workload": T(240, 6000, shards={"quick": 8, "thorough": 16}, shrinktime="15s"),
         },
     }],
 }
